@@ -46,12 +46,24 @@ theorem names_consistent :
     viaNames[viaHanded]? = some "handed" ∧ viaNames[viaWriteStore]? = some "writeStore" := by decide
 
 /-- the order facts the `ordered` table and the hand-off edges rest on are what the source says today
-(a mismatch means Open/Close/the flush hand-off were restructured: re-examine the rules) -/
+(a mismatch means Open/Close/the flush hand-off were restructured: re-examine the rules).
+Since edfc7e7 `Open` registers, right after its `open` check, a deferred clean-up — `defer:` events: close the stacked
+reader, forget the readers — that gives the loaded tables back when `Open` FAILS.  It runs at frame exit, still under the
+db write lock (the unlock was deferred earlier), and — re-examined for the rules: — the extractor keeps its accesses in
+thread kind `opener 0` only because the literal is `if err != nil { … }` on the named result and `Open` returns an error
+only before its first `go` statement (tools/lockfacts `errorOnlyDefer`; an unguarded clean-up is classified `opener 2`,
+concurrent with both goroutines, and `table_ok` fails): the clean-up never runs in a process that has a flusher or a
+compactor.  The conjunct after `openOrder` says so on the table: `clearReaders` — called from the clean-up only — is executed
+by `opener 0` alone, and everything it writes is written under the db write lock. -/
 theorem order_facts_as_expected :
     spawns = [("DB.Open", "flushMemstoreContinuously"), ("DB.Open", "backgroundCompaction")] ∧
-    openOrder = ["lock:dbW", "check:open", "call:DB.repairCompactions", "call:DB.reconstructSSTables",
+    openOrder = ["lock:dbW", "check:open",
+      "defer:call:SSTableManager.currentSSTable", "defer:content:currentReader.Close", "defer:call:SSTableManager.clearReaders",
+      "call:DB.repairCompactions", "call:DB.reconstructSSTables",
       "call:DB.replayAndSetupWriteAheadLog", "go:flushMemstoreContinuously", "write:DB.compactionTicker",
       "go:backgroundCompaction", "write:DB.open"] ∧
+    (accesses.filter (fun a => a.fn == "SSTableManager.clearReaders")).all
+      (fun a => a.thread == .opener 0 && (a.locks.contains .dbW || a.kind == .read)) = true ∧
     closeOrder = ["lock:dbW", "check:open", "check:closed", "write:DB.closed", "call:DB.rotateWalAndFlushMemstore",
       "close:storeFlushChannel", "recv:doneFlushChannel", "unlock:db", "send:compactionTickerStopChannel",
       "recv:doneCompactionChannel", "content:wal.Close", "call:SSTableManager.currentSSTable",
